@@ -738,7 +738,7 @@ class NpCalls:
                   axes=('k',))
 
     def np_sort(self, interp, st, args, kwargs, node):
-        return fresh(as_array(args[0])).w(deps=self.deps_of(args, kwargs), sorted=True)
+        return fresh(as_array(args[0])).w(deps=self.deps_of(args, kwargs), sorted=True, appearance_order=None)
 
     def np_array_split(self, interp, st, args, kwargs, node):
         x = as_array(args[0])
